@@ -5,7 +5,7 @@
 (* A state is one complete project description.                                    *)
 EXTENDS Ast, TLC, Json, FiniteSets
 
-CONSTANTS MaxMods, MinMods, Spells, Places, Layouts
+CONSTANTS MaxMods, MinMods, Spells, Places, Layouts, Agains
 
 (* layout k > 0: the modules k..n live in the sub-directory `sub/` (they are imported as `sub/m` from the top level and as
    `m` from each other; a module in `sub/` cannot import upwards: `..` does not parse); layout 0: one directory *)
@@ -15,6 +15,10 @@ AllLayouts == 0..5
 Forms == {"mod", "names", "type"}
 AllSpells == {"plain", "dotslash"}
 AllPlaces == {"early", "late"}
+(* a second import of the shared counter module in the same file, after the uses - i.e. after its state has changed: "names" *)
+(* (`import count from m`: the name is bound to what the one instance holds at that moment) or "mod" (`import m` again)               *)
+NoAgain == {"none"}
+SomeAgain == {"names", "mod"}
 OnePlain == {"plain"}
 OneEarly == {"early"}
 
@@ -26,10 +30,10 @@ Connected(n, E) == \A j \in 2..n : \E i \in 1..(j - 1) : <<i, j>> \in E
 
 Init == \E n \in MinMods..MaxMods : \E E \in SUBSET AllEdges(n) :
           /\ Connected(n, E)
-          /\ \E f \in [E -> Forms], sp \in [E -> Spells], pl \in [E -> Places], bare \in SUBSET (2..(n - 1)), lay \in Layouts \cap (({0} \cup (2..n))) :
+          /\ \E f \in [E -> Forms], sp \in [E -> Spells], pl \in [E -> Places], bare \in SUBSET (2..(n - 1)), lay \in Layouts \cap (({0} \cup (2..n))), ag \in Agains :
                \* a "bare" module exports nothing: it can only be imported as a whole
                /\ \A e \in E : e[2] \in bare => f[e] \in {"mod", "type"}
-               /\ pr = [n |-> n, edges |-> E, form |-> f, spell |-> sp, place |-> pl, bare |-> bare, lay |-> lay]
+               /\ pr = [n |-> n, edges |-> E, form |-> f, spell |-> sp, place |-> pl, bare |-> bare, lay |-> lay, again |-> ag]
 Next == UNCHANGED pr
 
 -----------------------------------------------------------------------------
@@ -51,7 +55,7 @@ ImportOf(i, j) ==
     IF pr.form[<<i, j>>] = "mod" THEN [k |-> "import", form |-> "mod", path |-> Path(i, j), names |-> <<>>]
     ELSE IF pr.form[<<i, j>>] = "type" THEN [k |-> "import", form |-> "type", path |-> Path(i, j), names |-> <<TName(j)>>]
     ELSE [k |-> "import", form |-> "names", path |-> Path(i, j),
-          names |-> IF IsCounter(j) THEN <<"bump", "cur", "count">> ELSE <<"val", "peek">>]
+          names |-> IF IsCounter(j) THEN (IF pr.again = "names" THEN <<"bump", "cur">> ELSE <<"bump", "cur", "count">>) ELSE <<"val", "peek">>]
 (* how module i reaches a member of module j, depending on the import form *)
 Member(i, j, name) == IF pr.form[<<i, j>>] = "mod" THEN Fld(V(MName(j)), name) ELSE V(name)
 
@@ -59,10 +63,20 @@ UseOf(i, j) ==
     IF pr.form[<<i, j>>] = "type" THEN
         <<[k |-> "let", n |-> "t" \o ToString(j), ty |-> TName(j), e |-> I(j), mod |-> FALSE, const |-> FALSE, export |-> FALSE],
           Print(V("t" \o ToString(j)))>>
-    ELSE IF IsCounter(j) THEN <<Print(Call(Member(i, j, "bump"), <<>>)), Print(Member(i, j, "count")),
-                           Print(Call(Member(i, j, "cur"), <<>>))>>
+    ELSE IF IsCounter(j) THEN <<Print(Call(Member(i, j, "bump"), <<>>))>>
+                              \o (IF pr.again = "names" /\ pr.form[<<i, j>>] = "names" THEN <<>> ELSE <<Print(Member(i, j, "count"))>>)
+                              \o <<Print(Call(Member(i, j, "cur"), <<>>))>>
     ELSE IF j \in pr.bare THEN <<>>
     ELSE <<Print(Member(i, j, "val")), Print(Call(Member(i, j, "peek"), <<>>))>>
+
+(* the second import of the counter module by module i, and a read through it *)
+Again(i) ==
+    IF pr.again = "none" \/ <<i, pr.n>> \notin pr.edges THEN <<>>
+    ELSE IF pr.again = "names"
+    THEN <<[k |-> "import", form |-> "names", path |-> Path(i, pr.n), names |-> <<"count">>], Print(V("count"))>>
+    ELSE IF pr.form[<<i, pr.n>>] = "mod" THEN <<>>       \* the module is bound already: a second `import m` would re-bind the name
+    ELSE <<[k |-> "import", form |-> "mod", path |-> Path(i, pr.n), names |-> <<>>], Print(Fld(V(MName(pr.n)), "count")),
+           Print(Call(Fld(V(MName(pr.n)), "bump"), <<>>))>>
 
 RECURSIVE Cat(_, _)
 Cat(seqs, k) == IF k > Len(seqs) THEN <<>> ELSE seqs[k] \o Cat(seqs, k + 1)
@@ -88,7 +102,7 @@ ModBody(i) ==
              early == [k \in 1..Len(ss) |-> IF pr.place[<<i, ss[k]>>] = "early" THEN <<ImportOf(i, ss[k])>> ELSE <<>>]
              late == [k \in 1..Len(ss) |-> IF pr.place[<<i, ss[k]>>] = "late" THEN <<ImportOf(i, ss[k])>> ELSE <<>>]
              uses == [k \in 1..Len(ss) |-> UseOf(i, ss[k])] IN
-         Cat(early, 1) \o <<Tag(i, "start"), TypeExport(i)>> \o Cat(late, 1) \o <<Tag(i, "mid")>> \o Cat(uses, 1)
+         Cat(early, 1) \o <<Tag(i, "start"), TypeExport(i)>> \o Cat(late, 1) \o <<Tag(i, "mid")>> \o Cat(uses, 1) \o Again(i)
          \o (IF i \in pr.bare THEN <<>> ELSE
              <<[k |-> "let", n |-> "val", ty |-> "int", e |-> I(100 * i), mod |-> FALSE, const |-> FALSE, export |-> TRUE],
                [k |-> "let", n |-> "peek", ty |-> "fn() -> int", mod |-> FALSE, const |-> FALSE, export |-> TRUE,
@@ -105,6 +119,6 @@ EdgeList == LET RECURSIVE L(_, _)
             IN L(1, <<>>)
 
 BareList == [k \in 1..pr.n |-> k \in pr.bare]
-EmitLight == ~NamesClash => PrintT("CASE " \o ToJson([n |-> pr.n, edges |-> EdgeList, bare |-> BareList, lay |-> pr.lay]))
-EmitCase == ~NamesClash => PrintT("CASE " \o ToJson([n |-> pr.n, edges |-> EdgeList, bare |-> BareList, lay |-> pr.lay, prog |-> Project]))
+EmitLight == ~NamesClash => PrintT("CASE " \o ToJson([n |-> pr.n, edges |-> EdgeList, bare |-> BareList, lay |-> pr.lay, again |-> pr.again]))
+EmitCase == ~NamesClash => PrintT("CASE " \o ToJson([n |-> pr.n, edges |-> EdgeList, bare |-> BareList, lay |-> pr.lay, again |-> pr.again, prog |-> Project]))
 =============================================================================
